@@ -1,5 +1,6 @@
 import MosnVerif.Lemmas.DownstreamProps
 import MosnVerif.Lemmas.TcpLedger
+import MosnVerif.Gen.ResourceSites
 /-!
 # C10 — circuit-breaker and active-gauge accounting is conserved (property theorems only)
 
@@ -255,5 +256,45 @@ example : ∀ s ∈ (tcpReach 2 [.sess 0 (.accept false 1 .ok .none .none), .ses
 /-- a pool of the same cluster holding the only slot makes the stream proxy refuse -/
 example : refused (sstep (Gen.Resource.canCreate (tcpReach 1 [.ambInc]).max (tcpReach 1 [.ambInc]).g.cur) {}
     (.accept false 1 .ok .none .none)).log = true := by decide
+
+
+/-!
+## Who moves which breaker resource (regenerated table of every `ResourceManager().<Res>().<Op>()` call under pkg/)
+
+The ledgers above are complete only if nothing else moves the counters.  `Gen.ResourceSites` lists every call site; the
+theorems below are re-decided against the regenerated table on every run, so a new `Increase()` in a pool, a second user
+of `Connections()`, or a resource handed to code outside the table stops the check.
+-/
+open MosnVerif.Gen.ResourceSites in
+/-- `Connections()` is moved by the stream proxy only, in the two regenerated functions of `Gen.TcpProxy` (the connection
+pools only read its `Max()` as a per-pool limit, against their own books: C09) -/
+theorem breaker_sites_connections :
+    (sites.filter fun s => s.res == .Connections && (s.op == .Increase || s.op == .Decrease || s.op == .CanCreate || s.op == .UpdateCur)) =
+      [⟨"pkg/filter/network/streamproxy/streamproxy.go", "proxy.finalizeUpstreamConnectionStats", .Connections, .Decrease⟩,
+       ⟨"pkg/filter/network/streamproxy/streamproxy.go", "proxy.initializeUpstreamConnection", .Connections, .CanCreate⟩,
+       ⟨"pkg/filter/network/streamproxy/streamproxy.go", "proxy.initializeUpstreamConnection", .Connections, .Increase⟩] := by
+  decide
+
+open MosnVerif.Gen.ResourceSites in
+/-- `PendingRequests()` is never moved, asked or read: its counter is constantly 0 (never negative, zero when idle); the
+configured `max_pending_requests` is never consulted -/
+theorem breaker_sites_pending : (sites.filter fun s => s.res == .PendingRequests) = [] := by
+  decide
+
+open MosnVerif.Gen.ResourceSites in
+/-- `Requests()` is moved by the five connection pools only (each pairs an `Increase` in NewStream with a `Decrease` on
+stream destroy: the ledger of C09 / `ledger_exact`), `Retries()` by `retryState` only (`retry` / `reset`: `ledger_exact`);
+no counter is ever set directly (`UpdateCur`), and the only code that takes a resource manager as a whole is the handler
+that copies the thresholds of an updated cluster -/
+theorem breaker_sites_table :
+    ((sites.filter fun s => s.res == .Requests && (s.op == .Increase || s.op == .Decrease)).map (·.file)).eraseDups =
+      ["pkg/stream/http/connpool.go", "pkg/stream/http2/connpool.go", "pkg/stream/xprotocol/connpool_binding.go",
+       "pkg/stream/xprotocol/connpool_multiplex.go", "pkg/stream/xprotocol/connpool_pingpong.go"] ∧
+    ((sites.filter fun s => s.res == .Retries).map fun s => (s.fn, s.op)) =
+      [("retryState.reset", .Decrease), ("retryState.retry", .Increase), ("retryState.shouldRetry", .CanCreate)] ∧
+    (sites.filter fun s => s.op == .UpdateCur) = [] ∧
+    escapes = ["pkg/upstream/cluster/cluster_manager.go:UpdateClusterResourceManagerHandler: newSnap.ClusterInfo().ResourceManager()",
+               "pkg/upstream/cluster/cluster_manager.go:UpdateClusterResourceManagerHandler: oldSnap.ClusterInfo().ResourceManager()"] := by
+  decide
 
 end MosnVerif.Props.C10
